@@ -324,7 +324,20 @@ def classify(C, kind, e, d, v, info, du=None):
     `a <= b` answered True through the `other.exp = -inf` path: a Round/Cast whose argument format is
     `<=` the scope's, an if-expression / branch join whose one side is `<=` the other."""
     op = 'return' if isinstance(e, str) else type(e).__name__
-    if isinstance(v, tuple): return None, f'prog-negative-zero-missed-at-{op}'
+    if isinstance(v, tuple):
+        # F29 exactly: the site is a negation / product whose exact abstract result (AbstractFormat.__neg__ /
+        # __mul__ on the operand formats) has no negative zero
+        try:
+            if op in ('Neg', 'Mul'):
+                import operator
+                from fpy2.analysis.format_infer import exact_binop, exact_unop
+                ex = exact_unop(info.by_expr.get(e.arg), operator.neg) if op == 'Neg' else \
+                    exact_binop(info.by_expr.get(e.first), info.by_expr.get(e.second), operator.mul)
+                if isinstance(ex, AbstractFormat) and not ex.has_neg_zero:
+                    return 'F29', 'prog-negative-zero-from-exact-neg-or-mul'
+        except Exception:   # noqa
+            pass
+        return None, f'prog-negative-zero-missed-at-{op}'
     if v in ('pinf', 'ninf', 'nan'): return None, f'prog-special-missed-at-{op}'
     try:
         if op in ('Round', 'Cast'):
